@@ -1,5 +1,6 @@
 from __future__ import annotations
 
+from copy import deepcopy
 from datetime import datetime
 from typing import Any, Dict, List, Optional
 
@@ -162,6 +163,14 @@ class Candle:
         if self.clean_values:
             for name, value in self.clean_values.items():
                 self.__setattr__(name, value)
+
+    def clean_copy(self) -> Candle:
+        """Deep copy holding the original values, without readings or conversion"""
+        candle = deepcopy(self)
+        candle.recover_clean_values()
+        candle.clean_values = {}
+        candle.reset_candle()
+        return candle
 
     def reset_candle(self):
         self.indicators = {}
